@@ -4686,6 +4686,18 @@ class Interp:
                     if all(isinstance(k, M.ClassInfo) or k in (str, int, float, bool, list, tuple, bytes) for k in ks) \
                        and not (isinstance(o.attrs.get('__dict'), dict) and dict in ks):
                         return False
+                elif isinstance(o, TextObj) and isinstance(o.attrs.get('__cls'), M.ClassInfo):
+                    mro = self.model.mro(o.attrs['__cls'])         # a text node of a stated class (a character token: Letter, Other)
+                    if any(k in mro or k is str for k in ks):
+                        return True
+                    if all(isinstance(k, M.ClassInfo) for k in ks):
+                        return False
+                elif isinstance(o, TextObj) and '__isa' not in o.attrs and all(isinstance(k, M.ClassInfo) for k in ks):
+                    # a text node of the document tree: an instance of the text class of the DOM and of its bases, of nothing else
+                    tx = self.model.modules.get('plasTeX.DOM')
+                    tcls = tx.classes.get('Text') if tx is not None else None
+                    if tcls is not None:
+                        return any(k in self.model.mro(tcls) for k in ks)
                 elif _plain(o) and not isinstance(o, (TextObj, TokStr)):
                     # a Python constant is an instance of none of the repository's classes
                     pyks = tuple(k for k in ks if isinstance(k, type))
